@@ -1362,8 +1362,8 @@ static int strnatcmp0(char const *a, char const *b, int fold_case)
          cb = nat_toupper(cb);
       }
 
-           if (ca < cb) return -1;
-      else if (ca > cb) return +1;
+           if ((unsigned char)ca < (unsigned char)cb) return -1;  // compare as unsigned bytes, the way strcmp() does
+      else if ((unsigned char)ca > (unsigned char)cb) return +1;
 
       ++ai; ++bi;
    }
